@@ -7,7 +7,7 @@ use crate::tok::*;
 pub const KEYS: &[&[u8]] = &[b"k1", b"k2", b"k3", b"", b"\x00\xffb", b"key:with space", b"ka", b"kb"];
 pub const OTHER_KEYS: &[&[u8]] = &[b"l1", b"s1", b"h1", b"z1", b"x1"];
 // integers in other than their canonical decimal form ("+5", "01", "-0", "00", "+0", " 5", "5 ", "007"): Rust's
-// str::parse takes the signed and the zero-padded ones, Redis (string2ll) none of them; since 5887f54 INCR / DECR /
+// str::parse takes the signed and the zero-padded ones, Redis (string2ll) none of them; since e4bcfd7 INCR / DECR /
 // INCRBY / DECRBY refuse them as the stored value and as the increment
 pub const VALUES: &[&[u8]] = &[b"", b"a", b"hello", b"10", b"-1", b"9223372036854775807", b"-9223372036854775808",
     b"007", b" 5", b"+5", b"1.5", b"\x00\xff\r\n", b"9223372036854775806", b"abc def",
@@ -18,7 +18,7 @@ pub const INTS: &[&[u8]] = &[b"0", b"1", b"-1", b"5", b"9223372036854775807", b"
 pub const IDX: &[&[u8]] = &[b"0", b"1", b"-1", b"2", b"-2", b"3", b"-3", b"5", b"-5", b"100", b"-100",
     b"9223372036854775807", b"-9223372036854775808", b"x", b"4", b"-4", b"-6", b"6"];
 pub const OFFS: &[&[u8]] = &[b"0", b"1", b"3", b"10", b"536870913", b"18446744073709551615", b"-1", b"7", b"abc", b"536870912"];
-// 0 and the negative counts: refused by SET EX / PX (48bcb4d) and by SETEX / PSETEX (0bd9e72)
+// 0 and the negative counts: refused by SET EX / PX (48bcb4d) and by SETEX / PSETEX (02eb367)
 pub const TTLS: &[&[u8]] = &[b"100", b"1000", b"18446744073709551615", b"9223372036854775807", b"abc", b"-1", b"", b"100000", b"0", b"-5", b"00"];
 // millisecond TTLs: never short enough to expire during a history (expiry itself is C02's subject)
 pub const TTLS_MS: &[&[u8]] = &[b"100000", b"1000000", b"18446744073709551615", b"9223372036854775807", b"abc", b"-1", b"", b"9223372036854775807000", b"0", b"-5", b"00"];
@@ -45,7 +45,7 @@ pub fn gen_cmd(r: &mut Rng) -> Vec<Vec<u8>> {
                     2 => { c.push(v(b"EX")); c.push(v(pick(r, TTLS))); }
                     3 => { c.push(v(b"px")); c.push(v(pick(r, TTLS_MS))); }
                     4 => c.push(v(b"EX")),
-                    // EX and PX together, in either order (a syntax error since 0e6458f), and one of them twice (the later wins)
+                    // EX and PX together, in either order (a syntax error since d6b03fb), and one of them twice (the later wins)
                     5 => { c.push(v(b"EX")); c.push(v(pick(r, TTLS))); c.push(v(b"PX")); c.push(v(pick(r, TTLS_MS))); }
                     6 => { c.push(v(b"PX")); c.push(v(pick(r, TTLS_MS))); c.push(v(b"ex")); c.push(v(pick(r, TTLS))); }
                     7 => { c.push(v(b"EX")); c.push(v(b"100")); c.push(v(b"EX")); c.push(v(pick(r, TTLS))); }
@@ -67,7 +67,7 @@ pub fn gen_cmd(r: &mut Rng) -> Vec<Vec<u8>> {
         13 | 14 => vec![v(b"GETRANGE"), v(k), v(pick(r, IDX)), v(pick(r, IDX))],
         15 => {
             // one time in four an EMPTY value: it changes nothing and answers the current length, whatever the offset
-            // (e0df64a: offsets 0, inside, at the end, beyond, beyond the 512 MB limit, not a number)
+            // (6988c1c: offsets 0, inside, at the end, beyond, beyond the 512 MB limit, not a number)
             let off = pick(r, OFFS); let val = if r.chance(1, 4) { &b""[..] } else { pick(r, VALUES) };
             vec![v(b"SETRANGE"), v(k), v(off), v(val)]
         }
@@ -141,7 +141,7 @@ pub fn gen(seed: u64, n: usize, _tier: &str) -> Vec<Case> {
         }
         cases.push(Case { id: format!("ren-{}", ci), ops, outs: vec![] });
     }
-    // the repaired deviations from the reference (e0df64a, 0e6458f, 0bd9e72, 5887f54), as fixed histories
+    // the repaired deviations from the reference (6988c1c, d6b03fb, 02eb367, e4bcfd7), as fixed histories
     {
         let mut ops = vec![conn_op(1), cmd_op(1, &[b"RPUSH", b"l1", b"a", b"b", b"c"])];
         // SETRANGE with an empty value: offsets 0, inside, at the end, beyond, beyond 512 MB; missing key, other type
